@@ -10,7 +10,7 @@ CHECKS = {
         engine="e2e",
         category="exploration",
         technique="differential (metamorphic) property testing across logging configurations on the real client+server over simnet, plus JSON round-trip of every captured qlog event and of structure-aware mutations of them",
-        text="Each generated workload / fault schedule is run five times: capturing exporter, no-op exporter, capturing with raw data, scheme-filtered exporter (generated mask), and a second build of the whole stack with the telemetry feature compiled out. All legs must give the same application transcript (bytes read/written per stream, errors, completion time), the same termination errors and the same datagram sequence (direction, and exact size for 1-RTT datagrams). Every event captured along the connection lifetimes (handshake, transfer, loss recovery, close; ~12-20 distinct event names per trace) must serialise to a JSON object with name, time, data and group_id, parse back to an equal event, and convert to the legacy format without panicking; ~240 mutated copies per case (numeric / string fields set to boundary values) must round-trip whenever they still parse. 600 cases quick, 40 000 thorough.",
+        text="Each generated workload / fault schedule is run five times: capturing exporter, no-op exporter, capturing with raw data, scheme-filtered exporter (generated mask), and a second build of the whole stack with the telemetry feature compiled out. All legs must give the same application transcript (bytes read/written per stream, errors, completion time), the same termination errors and the same datagram sequence (direction, and exact size for 1-RTT datagrams). Every event captured along the connection lifetimes (handshake, transfer, loss recovery, close; ~12-20 distinct event names per trace) must serialise to a JSON object with name, time, data and group_id, parse back to an equal event, and convert to the legacy format without panicking; ~240 mutated copies per case (numeric / string fields set to boundary values) must round-trip whenever they still parse. 1 000 cases quick, 40 000 thorough.",
         note="Event timestamps come from the wall clock and are never compared. Path-migration events are not produced (one path per connection). Non-finite floats are outside the mutation domain (JSON cannot carry them). The simnet server authenticates with an Ed25519 certificate issued by the repository's test CA (fixed-length signature) so that datagram sizes are reproducible run to run.",
         design_ref="DESIGN.md §3 C20",
     ),
@@ -18,7 +18,7 @@ CHECKS = {
         engine="e2e",
         category="exploration",
         technique="property-based scenario testing on the real dquic client+server over simnet (virtual time): generated sets of pending operations x life-cycle phase x close trigger, with an injected-frame hook to provoke a protocol error",
-        text="Each case leaves a generated combination of operations pending on both endpoints (stream read, blocked write, flush, shutdown, open bidi/uni at the stream limit, accept bidi/uni, handshaked, terminated), reaches a generated phase (before the first flight, mid-handshake, some ms after the handshake) and fires a trigger: client close, server close, both closes racing within +-5 ms, an injected STREAM_STATE violation, a black hole, or plain idleness with generated idle timeouts on both sides. Oracle: both sides terminate within 1.5 s + 2 RTT virtual of a close/error, with the application's code (or the RFC 9000 10.2.3 APPLICATION_ERROR conversion at the peer) and the same error on every later query; every pending operation and every operation started afterwards fails within 1 s; none succeeds after termination; an idle connection ends no earlier than the negotiated timeout after the last datagram and no later than 2x that after going quiet, and never when both sides advertise none. 3 000 scenarios quick, 200 000 thorough.",
+        text="Each case leaves a generated combination of operations pending on both endpoints (stream read, blocked write, flush, shutdown, open bidi/uni at the stream limit, accept bidi/uni, handshaked, terminated), reaches a generated phase (before the first flight, mid-handshake, some ms after the handshake) and fires a trigger: client close, server close, both closes racing within +-5 ms, an injected STREAM_STATE violation, a black hole, or plain idleness with generated idle timeouts on both sides. Oracle: both sides terminate within 1.5 s + 2 RTT virtual of a close/error, with the application's code (or the RFC 9000 10.2.3 APPLICATION_ERROR conversion at the peer) and the same error on every later query; every pending operation and every operation started afterwards fails within 1 s; none succeeds after termination; an idle connection ends no earlier than the negotiated timeout after the last datagram and no later than 2x that after going quiet, and never when both sides advertise none. 6 000 scenarios quick, 200 000 thorough.",
         note="One current-thread runtime per case (FIFO wake order). Monotone state is observed through handshaked()/terminated() only (no qlog). 'No application data emitted after the transition' is covered at frame level by C01/C09 (nothing is loaded after on_conn_error), not on the wire here.",
         design_ref="DESIGN.md §2.1, §3 C17",
     ),
@@ -98,7 +98,7 @@ CHECKS = {
         engine="e2e",
         category="fault_enumeration",
         technique="property-based fault injection: proptest-generated fault schedules, workloads and transport parameters run on the real dquic client+server over an in-memory network under tokio virtual time; oracle = data prefix-equality, no panic, no send storm, completion / no-hang by profile",
-        text="Each case runs the unmodified client and server stacks end to end (TLS handshake, packet protection, loss recovery) over simnet with a generated schedule of drop / delay / duplicate / replay / reflect-to-sender / bit-flip / truncate / replace-by-garbage faults per datagram index, pseudo-random loss, or a black hole, with generated flow-control/stream-count/idle parameters and 0-5 uni/bidi streams opened by either side. Safety clauses are asserted on every case; completion only where faults are strictly bounded (<=6 loss-equivalent datagrams); no-hang where a sound virtual-time bound exists. 1200 cases quick, 40 000 thorough; failures shrink to a minimal schedule/workload.",
+        text="Each case runs the unmodified client and server stacks end to end (TLS handshake, packet protection, loss recovery) over simnet with a generated schedule of drop / delay / duplicate / replay / reflect-to-sender / bit-flip / truncate / replace-by-garbage faults per datagram index, pseudo-random loss, or a black hole, with generated flow-control/stream-count/idle parameters and 0-5 uni/bidi streams opened by either side. Safety clauses are asserted on every case; completion only where faults are strictly bounded (<=6 loss-equivalent datagrams); no-hang where a sound virtual-time bound exists. 2400 cases quick, 60 000 thorough; failures shrink to a minimal schedule/workload.",
         note="One current-thread runtime per case with paused clock (FIFO wake order): multi-thread interleavings are not explored. Ciphertext is not reproducible (library RNG) and never enters the oracle. 'Tampered packets are never accepted' is decided behaviourally (a tampered datagram must not break a connection that survives the same schedule with drops instead) plus C06 at packet level. Perpetual-loss profiles assert safety only.",
         design_ref="DESIGN.md §2.1, §3 C02",
     ),
@@ -138,7 +138,7 @@ CHECKS = {
         engine="comp",
         category="exploration",
         technique="model-based history testing of ArcCC against an executable RFC 9002 reference model (paused clock, state snapshot hook), with exhaustive short histories",
-        text="Histories of sends (three spaces, sizes, ack-eliciting/in-flight flags), ACK frames (ranges, delays, ECN), clock advances and ticks drive the real ArcCC through its Transport trait; after every op a hook snapshot (cwnd, bytes_in_flight, recovery start, pto_count, timers, outstanding packets) is compared with what RFC 9002 permits: loss only with a larger acked number and packet/time threshold, acked never lost, in-flight packets always covered by a timer, PTO doubling and abandonment, cwnd >= 2 datagrams, at most one reduction per round trip, growth only outside recovery, bytes_in_flight accounting, quota vs window. All words <=5 (quick) / 7 (thorough) over an 8-letter alphabet exhaustively, 66k / 2.1M random histories.",
+        text="Histories of sends (three spaces, sizes, ack-eliciting/in-flight flags), ACK frames (ranges, delays, ECN), clock advances and ticks drive the real ArcCC through its Transport trait; after every op a hook snapshot (cwnd, bytes_in_flight, recovery start, pto_count, timers, outstanding packets) is compared with what RFC 9002 permits: loss only with a larger acked number and packet/time threshold, acked never lost, in-flight packets always covered by a timer, PTO doubling and abandonment, cwnd >= 2 datagrams, at most one reduction per round trip, growth only outside recovery, bytes_in_flight accounting, quota vs window. All words <=5 (quick) / 7 (thorough) over an 8-letter alphabet exhaustively, 162k / 2.1M random histories.",
         note="'Eventually' is checked only in bounded form. The implementation may be more conservative than RFC 9002, never less. Seven confirmed divergences are listed as known findings with narrow signatures; everything else is still asserted behind them.",
         design_ref="DESIGN.md §3 C13",
     ),
